@@ -187,6 +187,23 @@ func c07Tight(args []string) error {
 			emit(hier3("pow2-sphere", fmtf(float64(cells)), sp, cells, 0))
 		}
 	}
+	// --- a quadtree of 18 levels (lattice coordinates beyond 2^16): no exhaustive reference is affordable there, but
+	// nothing may be lost: the segments of a thin straight box must add up to its perimeter up to the corner cuts
+	// (diff = cells of length missing or in excess beyond 8)
+	for _, cells := range []int{33000, 70000} {
+		thin := sdf.Box2D(v2.Vec{X: 1000, Y: 1}, 0)
+		lsd := collectLines(thin, render.NewMarchingSquaresQuadtree(cells))
+		length := 0.0
+		for _, l := range lsd {
+			length += l[1].Sub(l[0]).Length()
+		}
+		h := 1000.0 / float64(cells)
+		d := int(math.Abs(length-2002)/h) - 8
+		if d < 0 {
+			d = 0
+		}
+		emit(hierObs{Ev: "hier", Name: "deep-thin-box", Dim: 2, Cells: cells, N: len(lsd), NFlat: len(lsd), Diff: d, Param: fmtf(length)})
+	}
 	var ls [][]*sdf.Line2
 	for _, cells := range seq {
 		ls = append(ls, collectLines(ci, render.NewMarchingSquaresQuadtree(cells*4)))
